@@ -290,4 +290,108 @@ theorem initInv_init (ne np nc : Nat) :
     exact this
   · exact n3
 
+/-! ## `MG.build` -/
+
+/-- the operation acts on existing, pairwise different registers -/
+def OpOK (W : List Wire) (o : Op) : Prop := (∀ w ∈ opWires o, w ∈ W) ∧ (opWires o).Nodup
+
+/-- the graph is a family of register paths over the registers `W`, every register exists, node ids are bounded by the
+    counter, and the operations along the path of `w` are the operations of `l` that touch `w` -/
+def BuildInv (W : List Wire) (g : MG) (l : List Op) : Prop :=
+  ∃ body, Rep0 g W body ∧ (∀ w ∈ W, RegOK g w) ∧ (∀ n ∈ g.nodes.map (·.1), ∀ k, n = .op k → k ≤ g.nodeId) ∧
+    (∀ w ∈ W, wireOps g body w = l.filter (touches w))
+
+theorem nOf_eq_of_counts (g g' : MG) (h1 : g'.ne = g.ne) (h2 : g'.np = g.np) (h3 : g'.nc = g.nc) (t : RT) :
+    g'.nOf t = g.nOf t := by cases t <;> simp [MG.nOf, h1, h2, h3]
+
+theorem BuildInv.add {W : List Wire} {g : MG} {l : List Op} (h : BuildInv W g l) (o : Op) (ho : OpOK W o) :
+    ∃ g', g.add o = .ok g' ∧ BuildInv W g' (l ++ [o]) ∧ g'.ne = g.ne ∧ g'.np = g.np ∧ g'.nc = g.nc := by
+  obtain ⟨body, r, hreg, hid, hops⟩ := h
+  obtain ⟨g', body', hadd, r', hb', hnodes, hnid, h1, h2, h3⟩ := r.add o ho.1 ho.2 hreg hid
+  refine ⟨g', hadd, ⟨body', r', ?_, ?_, ?_⟩, h1, h2, h3⟩
+  · intro w hw
+    obtain ⟨a, b⟩ := hreg w hw
+    refine ⟨by rw [nOf_eq_of_counts g g' h1 h2 h3]; exact a, ?_⟩
+    rw [hasNode_iff] at b ⊢
+    rw [hnodes, List.map_append]
+    exact List.mem_append_left _ b
+  · intro n hn k hk
+    rw [hnodes, List.map_append, List.mem_append] at hn
+    rcases hn with hn | hn
+    · have := hid n hn k hk; omega
+    · simp only [List.map_cons, List.map_nil, List.mem_singleton] at hn
+      rw [hn] at hk
+      injection hk with hk
+      omega
+  · intro w hw
+    have hfreshN : Nd.op (g.nodeId + 1) ∉ g.nodes.map (·.1) := by
+      intro hm
+      have := hid _ hm (g.nodeId + 1) rfl
+      omega
+    unfold wireOps
+    rw [hb' w, List.filterMap_append, List.filter_append]
+    congr 1
+    · rw [← hops w hw]
+      unfold wireOps
+      apply List.filterMap_congr
+      intro n hn
+      obtain ⟨_, _, _, hop, _⟩ := r.bodyOp w hw n hn
+      unfold gateAt
+      rw [opOf_append_old g g' _ hnodes n (opOf_some_mem g n _ hop)]
+    · have hgate : gateAt g' (.op (g.nodeId + 1)) = some o := by
+        unfold gateAt
+        rw [opOf_append g g' _ hnodes, opOf_none_of_not_mem g _ hfreshN]
+        simp
+      by_cases hwo : w ∈ opWires o
+      · have : touches w o = true := by unfold touches; simpa using hwo
+        simp [hwo, hgate, this]
+      · have : touches w o = false := by
+          unfold touches
+          cases hc : (opWires o).contains w with
+          | false => rfl
+          | true => exact absurd (by simpa using hc) hwo
+        simp [hwo, this]
+
+theorem build_fold (W : List Wire) : ∀ (todo : List Op) (g : MG) (done : List Op), BuildInv W g done →
+    (∀ o ∈ todo, OpOK W o) →
+    ∃ g', todo.foldlM MG.add g = .ok g' ∧ BuildInv W g' (done ++ todo) ∧ g'.ne = g.ne ∧ g'.np = g.np ∧ g'.nc = g.nc := by
+  intro todo
+  induction todo with
+  | nil => intro g done h _; exact ⟨g, rfl, by simpa using h, rfl, rfl, rfl⟩
+  | cons o todo' ih =>
+    intro g done h hall
+    obtain ⟨g1, hadd, h1, a1, a2, a3⟩ := h.add o (hall o (by simp))
+    obtain ⟨g2, hf, h2, b1, b2, b3⟩ := ih g1 (done ++ [o]) h1 (fun o' ho' => hall o' (List.mem_cons_of_mem _ ho'))
+    refine ⟨g2, ?_, by simpa using h2, b1.trans a1, b2.trans a2, b3.trans a3⟩
+    rw [List.foldlM_cons, hadd]
+    exact hf
+
+theorem mem_wiresN (ne np nc : Nat) (w : Wire) :
+    w ∈ wiresN ne np nc ↔ w.i < (match w.t with | .e => ne | .p => np | .c => nc) := by
+  unfold wiresN
+  cases w with | mk t i =>
+  simp only [List.mem_append, List.mem_map, List.mem_range, Wire.mk.injEq]
+  cases t <;> simp
+
+theorem buildInv_init (ne np nc : Nat) : BuildInv (wiresN ne np nc) (MG.init ne np nc) [] := by
+  obtain ⟨h, _, _, _⟩ := initInv_init ne np nc
+  refine ⟨fun _ => [], h.rep, ?_, ?_, ?_⟩
+  · intro w hw
+    refine ⟨(h.regs w).1 hw, ?_⟩
+    rw [hasNode_iff]
+    exact opOf_some_mem _ _ _ (h.rep.inpOp w hw)
+  · intro n hn k hk
+    obtain ⟨w, _, h1 | h1⟩ := h.nodesW n hn
+    · rw [h1] at hk; cases hk
+    · rw [h1] at hk; cases hk
+  · intro w _; rfl
+
+/-- **the multigraph of a circuit is a family of register paths** and the operations along the path of register `w` are
+    the operations of the circuit that touch `w`, in the order they were added -/
+theorem build_rep (c : Circuit) (h : ∀ o ∈ c.ops, OpOK (wiresN c.ne c.np c.nc) o) :
+    ∃ g, MG.build c = .ok g ∧ BuildInv (wiresN c.ne c.np c.nc) g c.ops ∧ g.ne = c.ne ∧ g.np = c.np ∧ g.nc = c.nc := by
+  obtain ⟨_, e1, e2, e3⟩ := initInv_init c.ne c.np c.nc
+  obtain ⟨g, hf, hb, a1, a2, a3⟩ := build_fold (wiresN c.ne c.np c.nc) c.ops _ [] (buildInv_init c.ne c.np c.nc) h
+  exact ⟨g, hf, by simpa using hb, a1.trans e1, a2.trans e2, a3.trans e3⟩
+
 end Graphiq.Compare
